@@ -72,12 +72,17 @@ func (w *World) RunConnWorld() {
 			w.Notes = append(w.Notes, fmt.Sprintf("dial conn %d: %v", i, err))
 			continue
 		}
+		if cc.OptOrder == 1 {
+			conn.SetDirectIO(true)
+		} else if cc.OptOrder == 2 {
+			conn.SetDirectIO(false)
+		}
 		if cc.Pipelining {
 			conn.SetPipelining(true)
 		}
 		if cc.DirectIO || cc.DirectSet == 1 {
 			conn.SetDirectIO(true)
-		} else if cc.DirectSet == 2 {
+		} else if cc.DirectSet == 2 || cc.OptOrder != 0 {
 			conn.SetDirectIO(false)
 		}
 		if cc.NoCopy {
